@@ -74,6 +74,8 @@ impl TaskManager {
 
 					running.store(true, Ordering::SeqCst);
 					log::debug!("Memtable flush task starting");
+					#[cfg(surrealkv_verif)]
+					crate::verif::gate("task.flush.start", &[]);
 
 					// Flush ALL pending immutable memtables in a loop
 					let mut flush_count = 0;
@@ -82,6 +84,8 @@ impl TaskManager {
 							Ok(()) => {
 								flush_count += 1;
 								write_stall.signal_work_done();
+								#[cfg(surrealkv_verif)]
+								crate::verif::gate("task.flush.one", &[("flushed", flush_count as u64)]);
 								// Check if there are more immutables to flush
 								if !core.has_pending_immutables() {
 									break;
@@ -108,6 +112,8 @@ impl TaskManager {
 						log::debug!("Memtable flush task: no immutables to flush");
 					}
 
+					#[cfg(surrealkv_verif)]
+					crate::verif::gate("task.flush.idle", &[("flushed", flush_count as u64)]);
 					running.store(false, Ordering::SeqCst);
 				}
 			});
@@ -133,6 +139,8 @@ impl TaskManager {
 
 					running.store(true, Ordering::SeqCst);
 					log::debug!("Level compaction task starting");
+					#[cfg(surrealkv_verif)]
+					crate::verif::gate("task.level.start", &[]);
 
 					// Use leveled compaction strategy
 					let strategy: Arc<dyn CompactionStrategy> =
@@ -145,6 +153,8 @@ impl TaskManager {
 						log::debug!("Level compaction completed successfully");
 						write_stall.signal_work_done();
 					}
+					#[cfg(surrealkv_verif)]
+					crate::verif::gate("task.level.idle", &[]);
 					running.store(false, Ordering::SeqCst);
 				}
 			});
